@@ -7,7 +7,11 @@ require (
 	github.com/ontio/ontology-crypto v1.2.1
 )
 
-require github.com/ontio/wagon v0.4.2 // indirect
+require (
+	github.com/blang/semver v3.5.1+incompatible // indirect
+	github.com/ontio/wagon v0.4.2 // indirect
+	github.com/scylladb/go-set v1.0.2 // indirect
+)
 
 require (
 	github.com/JohnCGriffin/overflow v0.0.0-20170615021017-4d914c927216 // indirect
